@@ -1535,3 +1535,214 @@ class C13(Check):
     def fresh_desc(self, cur):
         d = copy.deepcopy(cur)
         return d
+
+
+@register
+class C20(Check):
+    pid = "C20"
+    slices = ["fault-matrix", "well-posed-twins-accepted"]
+    uses_generated = True
+    FAULTS = ['missing_derivative', 'missing_update_rule', 'missing_parameter_value', 'no_method', 'no_solver', 'signal_objective',
+              'nonscalar_objective', 'set_value_nonparameter', 'set_value_nonparameter_live', 'set_initial_parameter', 'set_initial_unknown',
+              'unknown_constraint_grid', 'unknown_sample_grid', 'foreign_symbol', 'constant_false_literal', 'constant_false_horizon',
+              'alg_with_explicit_scheme', 'horizon_in_ode', 'roots_under_shooting', 'spline_nonlinear', 'spline_time_varying']
+
+    def explanation(self):
+        return ("theorems over the guard table regenerated from the source: every catalogue guard is present in its anchor function; any "
+                "non-empty set of catalogue faults is rejected at declaration or transcription and the solver is never called; a "
+                "fault-free specification reaches the solver. correspondence: the fault x method x position matrix on generated well-posed "
+                "OCPs: the declaring call or solve must raise and casadi.Opti.solve must not be entered; the well-posed twin must not raise")
+
+    def inject(self, fault, desc, b):
+        """apply one fault to a declared-but-untranscribed Ocp; returns 'declared' if the declaring call itself raised"""
+        import casadi as ca
+        ocp = b.ocp
+        rng = self.rng
+        x = rng.choice(b.states)
+        if fault == 'missing_derivative' or fault == 'missing_update_rule':
+            ocp.state()
+        elif fault == 'missing_parameter_value':
+            ocp.parameter()
+        elif fault == 'signal_objective':
+            ocp.add_objective(x[0])
+        elif fault == 'nonscalar_objective':
+            ocp.add_objective(ocp.at_tf(ca.vertcat(x[0], x[0])))
+        elif fault == 'set_value_nonparameter':
+            ocp.set_value(x, 1)
+        elif fault == 'set_value_nonparameter_live':
+            ocp.sample(x, grid='control')
+            ocp.set_value(x, 1)
+        elif fault == 'set_initial_parameter':
+            p = ocp.parameter(); ocp.set_value(p, 1)
+            ocp.set_initial(p, 1)
+        elif fault == 'set_initial_unknown':
+            ocp.set_initial(ca.MX.sym('foreign'), 1)
+        elif fault == 'unknown_constraint_grid':
+            ocp.subject_to(x[0] <= 1, grid=rng.choice(['foo', 'Control', 'integrators', 'root']))
+        elif fault == 'unknown_sample_grid':
+            ocp.sample(x, grid=rng.choice(['foo', 'Control', 'nodes']))
+        elif fault == 'foreign_symbol':
+            q = ca.MX.sym('q')
+            if rng.random() < 0.5:
+                ocp.subject_to(x[0] <= q)
+            else:
+                ocp.add_objective(ocp.at_tf(x[0] * q))
+        elif fault == 'constant_false_literal':
+            ocp.subject_to(ca.MX(1) <= 0)
+        elif fault == 'constant_false_horizon':
+            ocp.subject_to(ocp.T <= float(desc['T'][1]) / 2)
+        elif fault == 'alg_with_explicit_scheme':
+            z = ocp.algebraic()
+            ocp.add_alg(z - x[0])
+        elif fault == 'horizon_in_ode':
+            s = ocp.state()
+            ocp.set_der(s, s * rng.choice([ocp.T, ocp.t0]))
+        elif fault == 'roots_under_shooting':
+            ocp.subject_to(x[0] <= 1, grid='integrator_roots')
+
+    def applicable(self, fault, desc):
+        m = desc['method']
+        if fault == 'missing_update_rule':
+            return bool(desc.get('next'))
+        if fault == 'missing_derivative':
+            return not desc.get('next')
+        if fault == 'alg_with_explicit_scheme':
+            return m['kind'] in ('ms', 'ss') and not desc.get('next')
+        if fault == 'roots_under_shooting':
+            return m['kind'] in ('ms', 'ss')
+        if fault == 'horizon_in_ode':
+            return not desc.get('next')
+        if fault == 'constant_false_horizon':
+            return desc['T'][0] == 'num'
+        if fault.startswith('spline'):
+            return False
+        return True
+
+    def correspondence(self):
+        import casadi as ca
+        calls = {'n': 0}
+        orig_solve, orig_sl = ca.Opti.solve, ca.Opti.solve_limited
+
+        def counting_solve(self_, *a, **k):
+            calls['n'] += 1
+            return orig_solve(self_, *a, **k)
+
+        def counting_sl(self_, *a, **k):
+            calls['n'] += 1
+            return orig_sl(self_, *a, **k)
+        ca.Opti.solve = counting_solve
+        ca.Opti.solve_limited = counting_sl
+        try:
+            self.matrix()
+            self.spline_faults()
+        finally:
+            ca.Opti.solve, ca.Opti.solve_limited = orig_solve, orig_sl
+        self.calls = calls
+
+    def matrix(self):
+        import casadi as ca
+        reps = 1 if self.tier == 'quick' else 6
+        prof = {'methods': [('ms', 'rk'), ('ss', 'rk'), ('dc', 'rk'), ('ms', 'euler'), ('ms', 'next')], 'grids': ['uniform', 'geometric'], 'horizon': ['num', 'num', 'freeT'],
+                'obj_kinds': ['at_tf', 'integral'], 'ncons': (0, 2), 'Ns': [2, 3], 'Ms': [1, 2], 'degrees': [1, 2], 'nxs': [1, 2]}
+        kinds = [('ms', 'rk'), ('ss', 'rk'), ('dc', 'rk'), ('ms', 'next')]
+        for rep in range(reps):
+            for mk in kinds:
+                for fault in self.FAULTS:
+                    p2 = dict(prof); p2['methods'] = [mk]
+                    desc = G.gen_case(self.rng, p2)
+                    if not self.applicable(fault, desc):
+                        continue
+                    # the well-posed twin must be accepted
+                    import rockit.direct_method as DM_
+                    try:
+                        bt = B.build(desc, transcribe=False)
+                        with B.quiet():
+                            bt.ocp.solve_limited()
+                    except Exception as ex:
+                        self.slice_ok["well-posed-twins-accepted"] = False
+                        self.violation("well-posed twin raised %s: %s" % (type(ex).__name__, str(ex)[:200]), {"desc": desc}, {"kind": "twin-raised"})
+                        return
+                    before = None
+                    raised = None
+                    where = None
+                    try:
+                        no_method = fault == 'no_method'
+                        no_solver = fault == 'no_solver'
+                        b = self.build_without(desc, no_method, no_solver)
+                        import casadi as ca2
+                        n0 = self.count_solver_calls()
+                        with B.quiet():
+                            try:
+                                self.inject(fault, desc, b)
+                            except Exception as ex:
+                                raised, where = ex, 'declaration'
+                            if raised is None:
+                                try:
+                                    b.ocp.solve()
+                                except Exception as ex:
+                                    raised, where = ex, 'solve'
+                        n1 = self.count_solver_calls()
+                    except Exception as ex:
+                        self.violation("harness error while injecting %s: %r" % (fault, ex), {"desc": desc}, {"kind": "harness"})
+                        return
+                    self.evaluations += 1
+                    self.signatures.add((fault, mk))
+                    self.count("fault:" + fault)
+                    self.count("rejected-at:" + str(where))
+                    if len(self.samples) < 3:
+                        self.samples.append({"fault": fault, "method": mk, "raised": type(raised).__name__ if raised else None, "where": where})
+                    if raised is None or n1 != n0:
+                        self.slice_ok["fault-matrix"] = False
+                        self.violation("fault '%s' under %s was %s (solver entered: %s)" % (fault, mk, "not rejected" if raised is None else "rejected only after the solver was called", n1 != n0),
+                                       {"desc": desc, "fault": fault}, {"kind": "fault-accepted", "fault": fault, "method": mk[0]})
+
+    def count_solver_calls(self):
+        import casadi as ca
+        # the counters live in the closure of the patched functions
+        f = ca.Opti.solve
+        return f.__closure__[0].cell_contents['n'] if f.__closure__ else 0
+
+    def build_without(self, desc, no_method, no_solver):
+        b = B.build(desc, transcribe=False, solver=not no_solver)
+        if no_method:
+            import rockit
+            from rockit.direct_method import DirectMethod
+            with B.quiet():
+                # a stage with dynamics but only the default (non-sampling) method
+                sol = (b.ocp._method._solver, b.ocp._method._solver_options)
+                b.ocp._method = DirectMethod()
+                if sol[0] is not None:
+                    b.ocp.solver(*sol)
+        return b
+
+    def spline_faults(self):
+        try:
+            import networkx  # noqa
+            from rockit import SplineMethod, Ocp
+        except Exception:
+            self.notes.append("SplineMethod faults skipped (networkx not importable)")
+            return
+        import casadi as ca
+        for fault in ('spline_nonlinear', 'spline_time_varying'):
+            for rep in range(1 if self.tier == 'quick' else 5):
+                ocp = Ocp(T=2.0)
+                x = ocp.state(); v = ocp.state(); u = ocp.control()
+                ocp.set_der(x, v)
+                ocp.set_der(v, u * (x if fault == 'spline_nonlinear' else ocp.t))
+                ocp.add_objective(ocp.at_tf(x))
+                ocp.subject_to(ocp.at_t0(x) == 0)
+                ocp.solver('ipopt', {'ipopt.print_level': 0, 'print_time': False, 'ipopt.sb': 'yes'})
+                ocp.method(SplineMethod(N=self.rng.choice([3, 5])))
+                n0 = self.count_solver_calls()
+                raised = None
+                with B.quiet():
+                    try:
+                        ocp.solve()
+                    except Exception as ex:
+                        raised = ex
+                self.evaluations += 1
+                self.signatures.add((fault, 'spline'))
+                self.count("fault:" + fault)
+                if raised is None or self.count_solver_calls() != n0:
+                    self.slice_ok["fault-matrix"] = False
+                    self.violation("SplineMethod accepted %s dynamics" % ("nonlinear" if fault == 'spline_nonlinear' else "time-varying"), {"fault": fault}, {"kind": "fault-accepted", "fault": fault, "method": "spline"})
